@@ -401,8 +401,10 @@ def run_multi(h, quant=True):
             if f is not None:
                 out.py_fail = f
         except Exception as e:  # noqa: BLE001
-            out.py_fail = (f'quantity-raises:{type(e).__name__}',
-                           f'a quantity of the concatenation raised {type(e).__name__}: {str(e)[:160]}')
+            if not NOJIT:            # (un-jitted kernels are not the code under test)
+                out.py_fail = (f'quantity-raises:{type(e).__name__}',
+                               f'a quantity of the concatenation raised {type(e).__name__}: '
+                               f'{str(e)[:160]}')
     # the kernel case
     if coq_ok:
         if arr is not None:
